@@ -1242,6 +1242,18 @@ fn c16_producers(depth: usize) {
     _ => observable::from_stream(ScriptStream { items: vec![(1u32, Val::c(0))].into_iter().collect(), end_pending: 0, endless: true }, sd.clone()).on_error_map(|_: std::convert::Infallible| Val::c(0)).box_it_local_once(),
   };
   let prod = build_chain(prod, &chain);
+  // an operator that owns scheduled work of its own (periodic flush task, timers): it must retire too
+  let owns = e::choose(7);
+  let prod: Obs = match owns {
+    1 => prod.buffer_with_time(d(p), sd.clone()).map(|v: Vec<Val>| v.into_iter().next().unwrap_or(Val::c(0))).box_it(),
+    2 => prod.buffer_with_count_and_time(2, d(p), sd.clone()).map(|v: Vec<Val>| v.into_iter().next().unwrap_or(Val::c(0))).box_it(),
+    3 => prod.delay(d(1), sd.clone()).box_it(),
+    4 => prod.observe_on(sd.clone()).box_it(),
+    5 => prod.debounce(d(1), sd.clone()).box_it(),
+    6 => prod.sample(observable::interval(d(p), sd.clone()).map(|n: usize| Val::c(n as i64)).on_error_map(|_: std::convert::Infallible| Val::c(0))).box_it(),
+    _ => prod,
+  };
+  e::note(format!("task-owning stage: {}", ["none", "buffer_with_time", "buffer_with_count_and_time", "delay", "observe_on", "debounce", "sample(interval)"][owns as usize]));
   e::note(format!("producer {} (period {}) -> {} -> {:?} ; position {}", ["interval", "from_iter(counting)", "from_stream(endless)"][producer as usize], p, chain.iter().map(|(o, p)| show_p(*o, p)).collect::<Vec<_>>().join(" -> "), cutter, ["main", "notifier of take_until", "sampler of sample"][pos as usize]));
   let piped: Obs = match pos {
     0 => apply_cutter(prod, cutter),
@@ -1272,12 +1284,15 @@ fn c16_producers(depth: usize) {
     e::prune();
   }
   let pulls_at_terminal = world::counter(7) + world::counter(6);
-  // within one period every producer feeding this subscriber must have retired
-  world::run_fifo_bounded(32);
+  // within one period every producer feeding this subscriber must have retired (the polls are
+  // generous: a task-owning stage may have one short-lived task per item in flight)
+  world::run_fifo_bounded(1024);
   world::advance(p);
-  world::run_fifo_bounded(32);
+  world::run_fifo_bounded(1024);
   world::advance(p);
-  world::run_fifo_bounded(32);
+  world::run_fifo_bounded(1024);
+  world::advance(p);
+  world::run_fifo_bounded(1024);
   let live = world::live_tasks();
   let name = ["interval", "from_iter", "from_stream"][producer as usize];
   if live != 0 {
@@ -1490,6 +1505,134 @@ pub fn harnesses3() -> Vec<HarnessDef> {
     bounds: |t| format!("<= {} items, gaps 0..2, windows/periods 1..2, 12 cut points, LocalPool and ANY-order executors", if t { 3 } else { 2 }),
     f: Box::new(|t| c02_sched_more(if t { 3 } else { 2 })),
     budget_quick: 3_000_000,
+    budget_thorough: 40_000_000,
+    thorough_only: false,
+    sampled: true,
+  }]
+}
+
+// ------------------------------------------------------------------ C13: a second, overlapping subscription of a clone must not disturb the first
+
+fn all_logs_of(p: Probe) -> Vec<Ev> {
+  p.events()
+}
+
+/// The operator value is built once. Run 1: one subscription A driven by a symbolic script.
+/// Run 2 (same choices replayed): a clone is subscribed a second time at a chosen moment, its own
+/// hot inputs emit alongside ours, and it is unsubscribed at another chosen moment. A's log must
+/// be identical: no counter, flag, buffer, queue, timer slot or teardown registry may live in the
+/// operator value.
+fn c13_twin(k: usize) {
+  use crate::cat::Op2;
+  let unary = {
+    let mut v = model::C03_OPS.to_vec();
+    v.extend_from_slice(model::PASS_OPS);
+    v
+  };
+  let nsched = 7usize;
+  let nbin = crate::cat::OPS2.len();
+  let which = e::choose((nsched + nbin + unary.len()) as u32) as usize;
+  let p = if which >= nsched + nbin { Some(draw_params(unary[which - nsched - nbin], k as u32, 10)) } else { None };
+  let b_at = e::choose(k as u32 + 1) as usize;
+  let b_unsub = e::choose(k as u32 + 2) as usize; // k+1 = never
+  let name = if which < nsched {
+    ["observe_on", "delay", "debounce", "throttle(tailing)", "buffer_with_time", "buffer_with_count_and_time", "sample(interval)"][which].to_string()
+  } else if which < nsched + nbin {
+    format!("{:?}", crate::cat::OPS2[which - nsched])
+  } else {
+    op_name(unary[which - nsched - nbin])
+  };
+  e::note(format!("{} ; twin subscribes before step {}, unsubscribes before step {}", name, b_at, b_unsub));
+  let (a, b, diverged) = e::twice(
+    |second| {
+      let sd = world::any_sched();
+      let src = cat::hot_tagged(0);
+      let o: Obs = if which < nsched {
+        match which {
+          0 => src.observe_on(sd).box_it(),
+          1 => src.delay(d(1), sd).box_it(),
+          2 => src.debounce(d(1), sd).box_it(),
+          3 => src.throttle(|_v: &Val| d(1), ThrottleEdge::tailing(), sd).box_it(),
+          4 => src.buffer_with_time(d(1), sd).map(|v: Vec<Val>| Val::L(v)).box_it(),
+          5 => src.buffer_with_count_and_time(2, d(1), sd).map(|v: Vec<Val>| Val::L(v)).box_it(),
+          _ => src.sample(observable::interval(d(1), sd).map(|n: usize| Val::c(n as i64)).on_error_map(|_: std::convert::Infallible| Val::c(0))).box_it(),
+        }
+      } else if which < nsched + nbin {
+        let op2: Op2 = crate::cat::OPS2[which - nsched];
+        crate::cat::build2(op2, src, cat::hot_tagged(1))
+      } else {
+        crate::cat::build(unary[which - nsched - nbin], src, p.as_ref().unwrap())
+      };
+      let pa = fresh_probe();
+      let pb = fresh_probe();
+      let _ua = o.clone().actual_subscribe(pa);
+      let mut ub = None;
+      let mut b_live = false;
+      for i in 0..k {
+        if second && i == b_at {
+          ub = Some(o.clone().actual_subscribe(pb));
+          b_live = true;
+        }
+        if second && i == b_unsub {
+          if let Some(u) = ub.take() {
+            u.unsubscribe();
+            b_live = false;
+          }
+        }
+        let tag = e::choose(2) as usize;
+        let ev = match e::choose(3) {
+          0 => Ev::Next(Val::var()),
+          1 => Ev::Complete,
+          _ => Ev::Err(Val::var()),
+        };
+        if second && b_live {
+          // the twin's own inputs are busy too
+          if let Some(mut h) = cat::handle_nth(tag, 1) {
+            h.next(Val::c(-5));
+          }
+        }
+        if let Some(mut h) = cat::handle_nth(tag, 0) {
+          feed(&mut h, &ev);
+        }
+        if second && b_live {
+          if let Some(mut h) = cat::handle_nth(tag, 1) {
+            h.next(Val::c(-6));
+          }
+        }
+        world::run_fifo_until_stalled(64);
+        if e::choose_bool() {
+          world::advance(1);
+          world::run_fifo_until_stalled(64);
+        }
+      }
+      for _ in 0..3 {
+        world::advance(1);
+        world::run_fifo_until_stalled(64);
+      }
+      all_logs_of(pa)
+    },
+    || world::reset_world(),
+  );
+  if diverged {
+    e::fail(&format!("twin/{}/control-flow-diverged", name), || "the run with a second subscription asked for different choices".to_string());
+  }
+  let key = format!("twin/{}/first-subscription-disturbed", name);
+  let detail = || format!("alone [{}] ; with an overlapping second subscription of a clone [{}]", model::show_events(&a), model::show_events(&b));
+  match model::compare_events(&a, &b) {
+    Ok(t) => e::check(t, &key, detail),
+    Err(why) => e::fail(&key, || format!("{} ; {}", why, detail())),
+  }
+  e::cover("c13-twin-path-complete");
+}
+
+pub fn harnesses4() -> Vec<HarnessDef> {
+  vec![HarnessDef {
+    id: "c13_twin",
+    props: vec!["C13"],
+    about: "non-interference: a clone of the same operator value subscribed a second time (at any moment, with busy inputs, unsubscribed at any moment) leaves the first subscription's log unchanged; 7 scheduler operators, 8 two-input operators, every unary operator",
+    bounds: |t| format!("{} events on 2 hot inputs; twin subscribe / unsubscribe moments chosen; hook-FIFO executor", if t { 4 } else { 3 }),
+    f: Box::new(|t| c13_twin(if t { 4 } else { 3 })),
+    budget_quick: 600_000,
     budget_thorough: 40_000_000,
     thorough_only: false,
     sampled: true,
